@@ -75,6 +75,19 @@ Theorem C07_property_under_hyps : forall maxr cmid0 smid0 acts,
 Proof. exact ex_system_safe. Qed.
 Print Assumptions C07_property_under_hyps.
 
+(* "forall schedule, accepts (run M schedule) = true": the acceptor that judges the real
+   library's traces accepts every behaviour of the guarded model (it is not vacuous), and the
+   same judge without clause 2 accepts every behaviour of every configuration *)
+Theorem C07_model_accepted : forall maxr cmid0 smid0 acts,
+  accepts_c07 (ex_sys_trace (ex_cfg_guarded maxr) (ex_sys_init cmid0 smid0) acts) = true.
+Proof. exact ex_system_accepted. Qed.
+Print Assumptions C07_model_accepted.
+
+Theorem C07_model_accepted_lenient : forall cf cmid0 smid0 acts,
+  ex_judge_lenient (ex_sys_trace cf (ex_sys_init cmid0 smid0) acts) = 0.
+Proof. exact ex_system_lenient. Qed.
+Print Assumptions C07_model_accepted_lenient.
+
 (* without "the application sends when the network is quiet": a delayed duplicate of the
    previous exchange's response is delivered again after the next response overwrote the
    single-slot filter (last_ack_mid resp. last_con_mid) *)
